@@ -112,6 +112,7 @@ type FnEnc struct {
 	fvPtrs    map[string]Val // closures: captured variable name -> address of its cell
 	loopPre   map[*loopInfo]*State
 	exitState *State
+	coverAsserts int // number of assertions in place when the exit was reached, before postconditions are assumed
 	specHeapUse []map[string]bool
 	specCtxs  []*specCtx
 }
